@@ -154,8 +154,8 @@ def run(name, repo="/repo", work=None, tier="quick", prop=None, seed=0):
     if j.get("tb_mode"):
         res["bound"] = f"{j['seed_documents']} hand-derived WHATWG conformance cases (foreign content, integration points, text-type switches), each with and without an element handler, under every 1-cut chunking"
     if j.get("attr_mode"):
-        res["bound"] = f"start tags with up to {j['exhaustive_len']} attributes from {j['alphabet']}, every edit script of up to {j['max_cuts']} operations, reads and re-parsed output against a list model; plus every string over `aB= \"\'/` up to length 6 (7 thorough) as the inside of a start tag under every 1-cut chunking, against a reference WHATWG attribute tokenizer"
-        keep = {"C16": ("attributes()", "get_attribute", "attributes() /"), "C07": ("re-parsed", "unedited", "after edits", "rewriter failed")}[prop]
+        res["bound"] = f"start tags with up to {j['exhaustive_len']} attributes from {j['alphabet']}, every edit script of up to {j['max_cuts']} operations, reads and re-parsed output against a list model; plus every string over `aB= \"\'/` up to length 6 (7 thorough) as the inside of a start tag under every 1-cut chunking, against a reference WHATWG attribute tokenizer; for C07 also every edit script of <= 3 insertions (before/after/prepend/append) + optional replace/remove/remove_and_keep_content/set_inner_content + optional end-tag handler edit against a model of the documented edit algebra"
+        keep = {"C16": ("attributes()", "get_attribute", "attributes() /"), "C07": ("re-parsed", "unedited", "after edits", "rewriter failed", "documented edit")}[prop]
         j["violations"] = [v for v in j["violations"] if any(k in v["what"] for k in keep)]
     if "encodings" in j:
         res["bound"] = f"{j['encodings']} ASCII-compatible encodings (all of encoding_rs) x all byte strings over {j['alphabet']} up to length {j['exhaustive_len']} as text / attribute value / comment text x every write boundary, 4 texts of 2600 bytes per encoding (beyond the decoder buffer), inserted strings with unmappable characters, meta-charset switch at every cut (reference: encoding_rs one-shot decoder without BOM handling)"
